@@ -74,11 +74,13 @@ def checker_scanner_agree_statement : Prop :=
 def scan_denotes_statement : Prop :=
   ∀ (s : Sentence) (L : Layout) (cs : List Cell), s.wf = true → cells s = some cs → Reads (render s L) cs
 
-/-- the same with the trigger of C11-K1 excluded: what the correspondence check and the oracle
-    test on every generated sentence.  Proved for `Plain` sentences (`scan_denotes_partial`). -/
-def scan_denotes_modulo_K1_statement : Prop :=
+/-- the same with the triggers of the known findings C11-K1 (unsuffixed octal literal) and C11-K2
+    (numeric literal directly followed by '%') excluded: what the correspondence check and the
+    oracle test on every generated sentence.  Proved for `Proved` sentences under layouts in which
+    no comment follows a value directly (`scan_denotes_partial`). -/
+def scan_denotes_modulo_known_statement : Prop :=
   ∀ (s : Sentence) (L : Layout) (cs : List Cell), s.wf = true → hasOctalPlain s = false →
-    cells s = some cs → Reads (render s L) cs
+    hasNumPercent s L = false → cells s = some cs → Reads (render s L) cs
 
 /-- **whitespace_comment_invariance**, full statement: two texts that differ only in the layout
     scan to equal values (whenever both are accepted). -/
@@ -99,12 +101,12 @@ def print_scan_fixpoint_statement : Prop :=
     scalar in one of the spellings of `Tok.proved` (under the blanks the layout `L` puts inside it),
     an array without open end whose elements are such values of one type (any white space between
     them, nested to any depth), or `nxA` with a scalar or array `A` and `1 ≤ n ≤ 2³¹-1` -/
-def Proved (s : Sentence) (L : Layout) : Prop := provedFrom L 0 s
+def Proved (s : Sentence) (L : Layout) : Prop := L.spaced ∧ provedFrom L 0 s
 
 /-- the same without `nxA`: the sentences for which `print_scan_fixpoint` is proved -/
-def Plain (s : Sentence) (L : Layout) : Prop := plainFrom L 0 s
+def Plain (s : Sentence) (L : Layout) : Prop := L.spaced ∧ plainFrom L 0 s
 
-theorem Plain.proved {s : Sentence} {L : Layout} (h : Plain s L) : Proved s L := (plain_proved L s 0 h).1
+theorem Plain.proved {s : Sentence} {L : Layout} (h : Plain s L) : Proved s L := ⟨h.1, (plain_proved L s 0 h.2).1⟩
 
 theorem gapsBytes_append (a b : List Gap) : gapsBytes (a ++ b) = gapsBytes a ++ gapsBytes b := by
   simp [gapsBytes]
@@ -117,24 +119,15 @@ theorem reads_proved (s : Sentence) (L : Layout) (h : Proved s L) : Reads (rende
     have hform : ∃ (g : List Gap) (tail : Bytes), render [] L = gapsBytes g ++ tail ∧
         (tail = [] ∨ ∃ b, tail = 37 :: commentBody b) := by
       cases hl : L.last with
-      | none =>
-        cases ht : L.trail with
-        | nil => exact ⟨L.lead, [], by simp [render, valuesText, trailBytes, hl, ht], Or.inl rfl⟩
-        | cons x r =>
-          obtain ⟨e, _⟩ := sepBytes_fix (x :: r)
-          exact ⟨L.lead ++ fixSep (x :: r), [],
-            by simp [render, valuesText, trailBytes, hl, ht, e, gapsBytes_append], Or.inl rfl⟩
+      | none => exact ⟨L.lead ++ L.trail, [], by simp [render, valuesText, trailBytes, hl, gapsBytes_append], Or.inl rfl⟩
       | some b =>
-        obtain ⟨e, _⟩ := sepBytes_fix L.trail
-        refine ⟨L.lead ++ fixSep L.trail, 37 :: commentBody b, ?_, Or.inr ⟨b, rfl⟩⟩
-        have : trailBytes L.trail (some b) = sepBytes L.trail ++ 37 :: commentBody b := by
-          cases L.trail <;> simp [trailBytes]
-        simp [render, valuesText, hl, this, e, gapsBytes_append]
+        exact ⟨L.lead ++ L.trail, 37 :: commentBody b,
+          by simp [render, valuesText, trailBytes, hl, gapsBytes_append], Or.inr ⟨b, rfl⟩⟩
     obtain ⟨g, tail, hr, ht⟩ := hform
     rw [hr]
     exact ⟨by simpa [pCells, pcellsList] using countPrintedArgVals_empty g tail ht,
       by simpa [pCells, pcellsList] using scanArgVals_empty g tail ht⟩
-  · have hlay := argsLay_proved L (trailBytes L.trail L.last) (tail_trail L.trail L.last) s 0 hs h
+  · have hlay := argsLay_proved L h.1.1 (trailBytes L.trail L.last) (tail_trail L.trail L.last h.1.2) s 0 hs h.2
     have hcells := allCells_pArgs L 0 s
     have hr : render s L = gapsBytes L.lead ++ (valuesText L 0 s ++ trailBytes L.trail L.last) := by
       simp [render]
@@ -147,7 +140,7 @@ theorem reads_proved (s : Sentence) (L : Layout) (h : Proved s L) : Reads (rende
 
 theorem reads_plain (s : Sentence) (L : Layout) (h : Plain s L) : Reads (render s L) (valCells s) := by
   have := reads_proved s L h.proved
-  rwa [(plain_proved L s 0 h).2] at this
+  rwa [(plain_proved L s 0 h.2).2] at this
 
 /-- **checker_scanner_agree** (proved part): for every `Proved` sentence of any length and every
     layout, the checker counts exactly the cells the scanner writes and the scanner consumes the
@@ -162,7 +155,7 @@ theorem checker_scanner_agree_partial (s : Sentence) (L : Layout) (h : Proved s 
     spelling denotes. -/
 theorem scan_denotes_partial (s : Sentence) (L : Layout) (cs : List Cell) (h : Proved s L)
     (hc : cells s = some cs) : Reads (render s L) cs := by
-  have := cells_proved L s h
+  have := cells_proved L s h.2
   rw [this] at hc
   cases hc
   exact reads_proved s L h
@@ -213,7 +206,7 @@ theorem print_scan_fixpoint_partial (s : Sentence) (L : Layout) (cs : List Cell)
       C11.printArgVals defaultOpt cs ⟨[], 0⟩ = .ok (st, ret) ∧ ret = st.out.length ∧ Reads st.out cs := by
   have hcs : cs = valCells s := reads_unique hr (reads_plain s L h)
   subst hcs
-  have hP := plain_cells L s 0 h
+  have hP := plain_cells L s 0 h.2
   obtain ⟨st, ret, hprint, hret, hlay⟩ := printArgVals_lay defaultOpt (valCells s) hP
     (noConversion defaultOpt (valCells s) (fun c hc => (hP c hc).1) (Or.inr hrun))
   refine ⟨st, ret, ?_, hret, ?_⟩
@@ -264,7 +257,7 @@ theorem proved_no_trigger (L : Layout) : ∀ (s : Sentence) (i : Nat), provedFro
 
 /-- the proved part lies inside the statement with the trigger excluded -/
 theorem proved_not_K1 (s : Sentence) (L : Layout) (h : Proved s L) : hasOctalPlain s = false :=
-  proved_no_trigger L s 0 h
+  proved_no_trigger L s 0 h.2
 
 /-- a layout without any insertion -/
 def L0 : Layout := { lead := [], sep := fun _ => [], trail := [], last := none, blank := fun _ => [] }
@@ -291,12 +284,67 @@ theorem scan_denotes_counterexample : ¬ scan_denotes_statement := by
   rw [e] at this
   exact absurd this (by decide)
 
+/-! ### known finding C11-K2 -/
+
+theorem numPercentFrom_spaced (L : Layout) (h : L.spaced) : ∀ (s : Sentence) (i : Nat), numPercentFrom L i s = false := by
+  have hc : ∀ g : List Gap, (g = [] ∨ startsWs g = true) → startsComment g = false := by
+    intro g hg
+    cases g with
+    | nil => rfl
+    | cons x r => cases x <;> simp_all [startsWs, startsComment]
+  intro s
+  induction s with
+  | nil => intro i; rfl
+  | cons x r ih =>
+    intro i
+    cases r with
+    | nil =>
+      rcases h.2 with ⟨h1, h2⟩ | h1
+      · simp [numPercentFrom, h1, h2, startsComment]
+      · have : startsComment L.trail = false := hc _ (Or.inr h1)
+        cases ht : L.trail with
+        | nil => rw [ht] at h1; simp [startsWs] at h1
+        | cons a b => rw [ht] at this; simp [numPercentFrom, ht, this]
+    | cons y r' => simp [numPercentFrom, hc _ (h.1 i), ih (i + 1)]
+
+/-- the proved part lies outside the trigger of C11-K2: under a layout in which no comment
+    follows a value directly no numeric literal is followed by '%' -/
+theorem proved_not_K2 (s : Sentence) (L : Layout) (h : Proved s L) : hasNumPercent s L = false :=
+  numPercentFrom_spaced L h.1 s 0
+
+/-- the layout of `42%c`: a comment without line break directly behind the last value -/
+def L2 : Layout := { L0 with last := some [99] }
+
+/-- `42%c` is a sentence under a layout that puts a comment directly behind the value … -/
+theorem k2_witness : Sentence.wf [SVal.val (.int 42 .dec false)] = true ∧
+    cells [SVal.val (.int 42 .dec false)] = some [Cell.int .i 42] ∧
+    render [SVal.val (.int 42 .dec false)] L2 = [52, 50, 37, 99] ∧
+    hasNumPercent [SVal.val (.int 42 .dec false)] L2 = true ∧
+    hasOctalPlain [SVal.val (.int 42 .dec false)] = false := by
+  decide +kernel
+
+/-- … and the checker rejects it, although it accepts `true%c` with the value `true` -/
+theorem k2_count : C11.countPrintedArgVals [52, 50, 37, 99] = .ok (-1) ∧
+    C11.countPrintedArgVals [116, 114, 117, 101, 37, 99] = .ok 1 ∧
+    C11.scanArgVals [116, 114, 117, 101, 37, 99] 1 = .ok (6, [Cell.flag .T]) := by decide +kernel
+
+/-- **checker_scanner_agree_counterexample** (known finding C11-K2): the full statement does not
+    hold for the code as it is: a numeric literal directly followed by a comment is rejected. -/
+theorem checker_scanner_agree_counterexample : ¬ checker_scanner_agree_statement := by
+  intro h
+  obtain ⟨hwf, hc, hr, _, _⟩ := k2_witness
+  obtain ⟨n, cs, h1, _, _⟩ := h _ L2 hwf (by rw [hc]; rfl)
+  rw [hr, k2_count.1] at h1
+  have := Except.ok.inj h1
+  omega
+
 /-! ### non-vacuity -/
 
 /-- a messy layout: comments and line breaks in front, between and behind the values -/
 def exLayout : Layout :=
   { lead := [.ws .nl, .comment (lit "1 2 ... ["), .ws .tab]
-    sep := fun i => if i % 2 = 0 then [.ws .sp, .comment (lit "\"quoted\" 'c'"), .comment [], .ws .cr] else [.comment (lit "3x5")]
+    sep := fun i => if i % 2 = 0 then [.ws .sp, .comment (lit "\"quoted\" 'c'"), .comment [], .ws .cr]
+                    else [.ws .tab, .comment (lit "3x5")]
     trail := [.ws .vt]
     last := some (lit "the end")
     blank := fun p => if p = [4, 0] ∨ p = [8, 0] then [.sp] else if p.getD 0 0 = 8 ∧ 3 ≤ p.getD 1 0 then [.nl, .tab] else [] }
@@ -304,6 +352,12 @@ def exLayout : Layout :=
 /-- no insertion at all (the blank behind `MIDI` / `BLOB` is part of the proved spelling) -/
 def exLayout0 : Layout :=
   { L0 with blank := fun p => if p = [4, 0] ∨ p = [8, 0] then [.sp] else [] }
+
+theorem exLayout_spaced : exLayout.spaced := by
+  refine ⟨fun i => ?_, Or.inr rfl⟩
+  by_cases h : i % 2 = 0 <;> simp [exLayout, h, startsWs]
+
+theorem exLayout0_spaced : exLayout0.spaced := ⟨fun _ => Or.inl rfl, Or.inl ⟨rfl, rfl⟩⟩
 
 /-- one value of every proved construct -/
 def exSentence : Sentence :=
@@ -313,7 +367,8 @@ def exSentence : Sentence :=
    .val (.color 0x8badf00d false)]
 
 theorem exPlain : Plain exSentence exLayout := by
-  unfold Plain exSentence
+  refine ⟨exLayout_spaced, ?_⟩
+  unfold exSentence
   simp only [plainFrom, and_true]
   refine ⟨⟨_, rfl, ?_, ?_⟩, ⟨_, rfl, ?_, ?_⟩, ⟨_, rfl, ?_, ?_⟩, ⟨_, rfl, ?_, ?_⟩, ⟨_, rfl, ?_, ?_⟩, ⟨_, rfl, ?_, ?_⟩,
     ⟨_, rfl, ?_, ?_⟩, ⟨_, rfl, ?_, ?_⟩, ⟨_, rfl, ?_, ?_⟩, ⟨_, rfl, ?_, ?_⟩, ⟨_, rfl, ?_, ?_⟩, ⟨_, rfl, ?_, ?_⟩⟩ <;>
@@ -328,7 +383,8 @@ def exSentenceRep : Sentence :=
 def exLayoutRep : Layout := { L0 with blank := fun p => if p = [6, 0] then [.sp] else [] }
 
 theorem exProved : Proved exSentenceRep exLayoutRep := by
-  unfold Proved exSentenceRep exSentence
+  refine ⟨⟨fun _ => Or.inl rfl, Or.inl ⟨rfl, rfl⟩⟩, ?_⟩
+  unfold exSentenceRep exSentence
   simp only [List.drop_succ_cons, List.drop_zero, provedFrom, SVal.proved, provedElems, SVal.repeatable, and_true,
     true_and]
   refine ⟨⟨by decide, by decide, by decide +kernel, ⟨by decide +kernel, by decide +kernel⟩, by decide +kernel,
@@ -347,8 +403,9 @@ example : String.ofList ((render exSentenceRep exLayoutRep).map (fun b => Char.o
 /-- the hypotheses of all `_partial` theorems hold for a non-trivial sentence -/
 example : Plain exSentence exLayout ∧ Plain exSentence exLayout0 ∧ NoLongRun (valCells exSentence) ∧
     cells exSentence = some (valCells exSentence) ∧ (valCells exSentence).length = 12 := by
-  refine ⟨exPlain, ?_, ?_, cells_plain _ _ exPlain, by decide +kernel⟩
-  · unfold Plain exSentence
+  refine ⟨exPlain, ?_, ?_, cells_plain _ _ exPlain.2, by decide +kernel⟩
+  · refine ⟨exLayout0_spaced, ?_⟩
+    unfold exSentence
     simp only [plainFrom, and_true]
     refine ⟨⟨_, rfl, ?_, ?_⟩, ⟨_, rfl, ?_, ?_⟩, ⟨_, rfl, ?_, ?_⟩, ⟨_, rfl, ?_, ?_⟩, ⟨_, rfl, ?_, ?_⟩, ⟨_, rfl, ?_, ?_⟩,
       ⟨_, rfl, ?_, ?_⟩, ⟨_, rfl, ?_, ?_⟩, ⟨_, rfl, ?_, ?_⟩, ⟨_, rfl, ?_, ?_⟩, ⟨_, rfl, ?_, ?_⟩, ⟨_, rfl, ?_, ?_⟩⟩ <;>
@@ -397,6 +454,25 @@ example : cells exRanges = some
      .arr 105 3, .int .i 1, .rep 0 0, .int .i 1, .rep 4 0, .flag .N] := by decide +kernel
 
 example : agrees exRanges L0 = true ∧ agrees exRanges exLayout = true := by decide +kernel
+
+/-- comments directly behind the values (no white space in front of '%'), also at the very end -/
+def exLayoutTight : Layout :=
+  { lead := [.comment (lit "lead")], sep := fun i => if i % 2 = 0 then [.comment (lit "c")] else [.comment [], .ws .sp, .comment (lit "x")]
+    trail := [], last := some (lit "end"), blank := fun _ => [] }
+
+/-- `true 'a' "s"\"t" "q"S abc #8badf00d [1 2] 2x"s" [1 2...] 0.5 (0x1p-1) MIDI […] BLOB […] nil`: every kind
+    of value end that is not a numeric word -/
+def exTight : Sentence :=
+  [.val (.kw .true_), .val (.chr 97 false), .val (.str false [[.raw 115], [.raw 116]]), .val (.str true [[.raw 113]]),
+   .val (.ident (lit "abc")), .val (.color 0x8badf00d false), .arr [.val (.int 1 .dec false), .val (.int 2 .dec false)] false,
+   .rep 2 (.val (.str false [[.raw 115]])), .arr [.val (.int 1 .dec false), .val (.int 2 .dec false)] true,
+   .val (.flt false false (.dec ⟨false, [0], some [5], none, false, false⟩) (some ⟨false, [1], none, -1⟩)),
+   .val (.midi 1 2 3 4 true), .val (.blob [1]), .val (.kw .nil)]
+
+example : hasNumPercent exTight exLayoutTight = false ∧ agrees exTight exLayoutTight = true := by decide +kernel
+
+example : String.ofList ((render [SVal.val (.kw .true_), .val (.kw .false_)] exLayoutTight).map (fun b => Char.ofNat b.toNat)) =
+    "%lead\ntrue%c\nfalse%end" := by decide +kernel
 
 /-- `0.0 0.3...1.1995 -10E+2d 0.000061 (0x0.1p-10) 0x2ah 052i`: a float range inside the tolerance
     (nearest step count, fix C11-05), exponent / exact / suffixed spellings -/
